@@ -324,4 +324,19 @@ theorem disconnect_removes_own (n : Naming) (c : String) (now : Int) (keys : Lis
               exact hacc s i h1 h2
   exact fold keys _ hik heph
 
+
+/-- **the committed removal of a persistent record never takes an ephemeral registration away**: when the instance
+stored under the address is ephemeral (it was re-registered meanwhile), the apply of `NamingRaftReq::RemoveInstance`
+changes nothing (fixed finding F31: it used to remove whatever was stored) -/
+theorem raft_remove_keeps_ephemeral (n : Naming) (k : SKey) (short : ShortKey) (now : Int) (svc : Svc) (i : Inst)
+    (hs : AL.get? n.services k = some svc) (hi : AL.get? svc.insts short = some i) (he : i.ephemeral = true) :
+    n.raftRemove k short now = n := by
+  simp [Naming.raftRemove, hs, hi, he]
+
+/-- … and it removes a persistent one like a deregistration without a client id does -/
+theorem raft_remove_persistent (n : Naming) (k : SKey) (short : ShortKey) (now : Int) (svc : Svc) (i : Inst)
+    (hs : AL.get? n.services k = some svc) (hi : AL.get? svc.insts short = some i) (he : i.ephemeral = false) :
+    n.raftRemove k short now = (n.removeInstance k short none now).1 := by
+  simp [Naming.raftRemove, hs, hi, he]
+
 end RNacos.Props.C12
